@@ -550,6 +550,7 @@ impl<T: ItemT> TableRunner<T> {
                     }
                 }
             }
+            ("x_iter_hash", 1) => {}
             ("iter_hash", 1) | ("iter_hash_mut", 1) => {
                 if !zst {
                     let got: Vec<usize> = ret.split(',').filter_map(|x| x.parse().ok()).collect();
@@ -1019,6 +1020,17 @@ impl<T: ItemT> TableRunner<T> {
                 "()".into()
             }
             ("len", 0) => m.len().to_string(),
+            // cross-back-end form (never sent to the model): the elements with that hash as a sorted set
+            ("x_iter_hash", 1) => {
+                // (`iter_hash` may also yield elements of OTHER hashes whose tag collides — which ones depends on
+                // the layout — so only the elements that do have this hash are compared)
+                let h = tape::plan_hash(n(0));
+                let mut v: Vec<String> = m.iter_hash(h).filter(|e| tape::plan_hash(e.k()) == h).map(fmt_item).collect();
+                v.sort();
+                let mut w: Vec<String> = m.iter_hash_mut(h).filter(|e| tape::plan_hash(e.k()) == h).map(|e| fmt_item(&*e)).collect();
+                w.sort();
+                format!("{}|{}", v.join(","), w.join(","))
+            }
             ("nop", 0) => "()".into(),
             _ => format!("bad-op {}", name),
         }
